@@ -50,6 +50,22 @@ def row(deco, arg):
     def f(x):
         return x
 
+    if deco in ("requireOnStaticObj", "ensureOnStaticObj", "requireOnClassmObj", "ensureOnClassmObj"):
+        # the decorator is written ABOVE @staticmethod / @classmethod: it receives the descriptor object
+        target = staticmethod(f) if "Static" in deco else classmethod(lambda cls, x=0: x)
+        before = dict(vars(target)) if hasattr(target, "__dict__") else {}
+        if deco.startswith("require"):
+            r = icontract.require(lambda x: cond(), **kw)(target)
+        else:
+            r = icontract.ensure(lambda result: cond(), **kw)(target)
+        after = dict(vars(target)) if hasattr(target, "__dict__") else {}
+        try:
+            if "Static" in deco:
+                r(1) if callable(r) else None
+        except BaseException:  # noqa: B902
+            pass
+        return {"same": r is target, "attrs_added": sorted(set(after) - set(before)), "rebound": [], "cond_calls": calls["cond"]}
+
     if deco in ("requireOnChecker", "ensureOnChecker"):
         # the function already carries an (explicitly enabled) contract checker
         g = icontract.require(lambda x: True, enabled=True)(icontract.ensure(lambda result: True, enabled=True)(f))
@@ -86,15 +102,68 @@ def row(deco, arg):
             "snap_list": len(getattr(target, "__postcondition_snapshots__", [])), "cond_calls": calls["cond"]}
 
 
+def broken_before_call():
+    """explicitly enabled invariants; the object is broken without going through a checked operation; the next public
+    operation must be stopped BEFORE its body in every interpreter mode"""
+    out = {}
+    for flavour in ("method", "property", "async_method", "setattr"):
+        ran = []
+        co = icontract.InvariantCheckEvent.ALL if flavour == "setattr" else icontract.InvariantCheckEvent.CALL
+
+        @icontract.invariant(lambda self: len(self.items) < 3, enabled=True, check_on=co)
+        class K:
+            def __init__(self):
+                self.items = [1]
+
+            def m(self):
+                ran.append("m")
+                del self.items[:]
+                return 1
+
+            @property
+            def p(self):
+                ran.append("p")
+                return 2
+
+            async def am(self):
+                ran.append("am")
+                return 3
+
+        o = K()
+        o.items.extend([2, 3, 4])          # mutated through an alias: no checked operation involved
+        try:
+            if flavour == "method":
+                o.m()
+            elif flavour == "property":
+                o.p
+            elif flavour == "async_method":
+                c = o.am()
+                try:
+                    c.send(None)
+                except StopIteration:
+                    pass
+            else:
+                o.other = 5
+            res = "returned"
+        except icontract.ViolationError:
+            res = "violation"
+        except BaseException as e:  # noqa: B902
+            res = type(e).__name__
+        out[flavour] = [res, list(ran)]
+    return out
+
+
 def main():
     cases = json.load(open(sys.argv[1]))
     out = {"debug": __debug__, "SLOW": bool(icontract.SLOW), "optimize": sys.flags.optimize, "table": {}, "obs": []}
-    for deco in ("require", "ensure", "snapshot", "invariant", "requireOnChecker", "ensureOnChecker"):
+    for deco in ("require", "ensure", "snapshot", "invariant", "requireOnChecker", "ensureOnChecker",
+                 "requireOnStaticObj", "ensureOnStaticObj", "requireOnClassmObj", "ensureOnClassmObj"):
         for arg in ("dflt", "explicitTrue", "explicitFalse", "slow"):
             try:
                 out["table"]["%s/%s" % (deco, arg)] = row(deco, arg)
             except BaseException as e:  # noqa: B902
                 out["table"]["%s/%s" % (deco, arg)] = {"error": "%s: %s" % (type(e).__name__, e)}
+    out["broken_before_call"] = broken_before_call()
     for c in cases:
         o = implck.run(c)
         out["obs"].append({"trace": o.get("trace"), "out": o.get("out"), "define": o.get("define"), "inprog": o.get("inprog")})
